@@ -3,7 +3,7 @@
    region stack, index/slice/unwrap panics); layer A = the reference decoder on lists. *)
 From Coq Require Import NArith ZArith List.
 From Desert Require Import Outcome IO IOProofs Types Codec CodecB CodecWf TotalProofs SimProofs
-  MonoProofs PropLemmas TermProofs.
+  MonoProofs PropLemmas TermProofs SizeProofs.
 Import ListNotations.
 Open Scope N_scope.
 
@@ -88,6 +88,45 @@ Example C05_zero_width_spins :
   dec a_ops 1000 [] (TSeq KVec (TPrim PUnit)) (mkA [254; 255; 255; 255; 15] [] []) = Fuel.
 Proof. exact zero_width_needs_count_many_steps. Qed.
 
+(* ALLOCATION: "never allocates more than a bounded multiple of the input length".  At the level of the model
+   this is a statement about the SIZE of the decoded value (vsize: one per node, plus the bytes of every string
+   and byte array).  It is FALSE as it stands: a back-reference to a de-duplicated string costs at most five
+   bytes and yields a copy of the whole string - 184 bytes of input decode to a value of size 8182 - which is the
+   known finding F30 (16 KB -> 64 MB on the implementation). *)
+Theorem C05_size_refuted :
+  let t := TSeq KVec (TPrim PDedupString) in
+  exists input v s', dec a_ops 200 [] t (mkA input [] []) = Ok (v, s') /\
+                     nlen input < 200 /\ 20 * nlen input < vsize v.
+Proof. exact size_not_linear_with_dedup. Qed.
+
+(* ... and it HOLDS for every type and every environment of declarations - recursive ones included, whatever
+   their evolution steps and defaults - that reads no de-duplicated strings and has no sequences of zero-width
+   elements (those cost no memory in Rust: a Vec<()> does not allocate): the decoded value is at most
+   size_const E t times larger than the bytes consumed, where size_const is a constant of the declarations (the
+   widest tuple, and per record its fields plus the sizes of its declared defaults).  From ANY accepted input,
+   lenient forms included; the count, length and chunk-size fields of the input never buy memory. *)
+Theorem C05_size_linear : forall f E t bs st v rest st',
+  nzw_env E = true -> nzw_ty t = true -> no_dedup_env E = true -> no_dedup t = true ->
+  decodeA f E t bs st = Ok (v, rest, st') ->
+  vsize v <= size_const E t * (1 + (nlen bs - nlen rest)) /\
+  vsize v <= size_const E t * (1 + nlen bs).
+Proof. exact decodeA_size_linear. Qed.
+
+Theorem C05_size_linear_anywhere : forall f E t s v s',
+  nzw_env E = true -> nzw_ty t = true -> no_dedup_env E = true -> no_dedup t = true ->
+  dec a_ops f E t s = Ok (v, s') ->
+  vsize v <= size_const E t * (1 + (nlen (a_cur s) - nlen (a_cur s'))).
+Proof. exact decA_size_linear. Qed.
+
+(* non-vacuity: the recursive list of C05_prompt_example has constant 5; a record with a FieldAdded default and a
+   transient default has constant 25 *)
+Example C05_size_examples :
+  (let E := [mkD [76] (DRecord (mkR [mkField [110] (TOption (TWrap KBox (TNamed 0))) true None;
+                                     mkField [105] (TSeq KVec (TTuple [TPrim PU8])) false None] []))] in
+   nzw_env E = true /\ no_dedup_env E = true /\ size_const E (TNamed 0) = 5) /\
+  nlen dedup_bomb = 184.
+Proof. vm_compute. repeat split. Qed.
+
 (* non-vacuity of the prompt bound: a recursive declaration L { n: Option<Box<L>>, i: Vec<(u8,)> } *)
 Example C05_prompt_example :
   let E := [mkD [76] (DRecord (mkR [mkField [110] (TOption (TWrap KBox (TNamed 0))) true None;
@@ -119,3 +158,6 @@ Print Assumptions C05_terminates_prompt.
 Print Assumptions C05_progress.
 Print Assumptions C05_terminates.
 Print Assumptions C05_terminates_bound.
+Print Assumptions C05_size_refuted.
+Print Assumptions C05_size_linear.
+Print Assumptions C05_size_linear_anywhere.
